@@ -472,8 +472,112 @@ static SAMPLES: std::sync::Mutex<Vec<serde_json::Value>> = std::sync::Mutex::new
 static BUILDS: std::sync::atomic::AtomicU64 = std::sync::atomic::AtomicU64::new(0);
 static DISTINCT: std::sync::atomic::AtomicU64 = std::sync::atomic::AtomicU64::new(0);
 
+// ---------------------------------------------------------------- short histories over every payload shape
+
+/// `builds` builds under one key of a payload whose shape is fixed by (`pad`, `claims`): one text claim of `pad` characters
+/// (the JSON payload length runs through every residue of every block size as pad does) and `claims` numbered claims -
+/// with ONE builder asked repeatedly, or a fresh builder per build with the same claims.
+#[derive(Clone, Debug, Serialize, Deserialize)]
+pub struct ShapeCase {
+  pub proto: Proto,
+  pub layer: Layer,
+  pub pad: u32,
+  pub claims: u16,
+  pub builds: u8,
+  pub one_builder: bool,
+  pub with_footer: bool,
+}
+
+pub struct Shapes;
+
+impl Sub for Shapes {
+  type Case = ShapeCase;
+  fn name(&self) -> String {
+    "C10/payload-shapes".into()
+  }
+  fn check(&self, c: &ShapeCase, cl: &mut Classes) -> Verdict {
+    let p = c.proto;
+    let km = keys::material(p, &[42u8; 32]);
+    let lk = km.lib().expect("valid key");
+    let mut specs = vec![ClaimSpec::Custom("data".into(), json!("p".repeat(c.pad as usize)))];
+    for j in 0..c.claims {
+      specs.push(ClaimSpec::CustomOwned(format!("c{j:03}"), json!(j)));
+    }
+    if c.layer == Layer::Generic {
+      // the same instant in every build: nothing but the nonce may differ between the tokens
+      specs.push(ClaimSpec::Exp("2999-01-01T00:00:00Z".into()));
+    }
+    let mut shared = new_builder(p, c.layer);
+    for s in &specs {
+      let _ = shared.set(s);
+    }
+    if c.with_footer {
+      shared.footer("kid-1");
+      shared.assertion("ctx");
+    }
+    let mut seen: HashSet<Vec<u8>> = HashSet::new();
+    let mut payload_len = 0usize;
+    for i in 0..c.builds.max(2) {
+      let token = if c.one_builder {
+        shared.build(&lk)
+      } else {
+        let mut b = new_builder(p, c.layer);
+        for s in &specs {
+          let _ = b.set(s);
+        }
+        if c.with_footer {
+          b.footer("kid-1");
+          b.assertion("ctx");
+        }
+        b.build(&lk)
+      };
+      let token = match token {
+        Ok(t) => t,
+        Err(e) => vio!("C10:build-failed:{}:{}", p.label(), c.layer.label(); "build #{} failed: {}", i + 1, e.text),
+      };
+      let payload = split_token(&token).and_then(|(_, b, _)| unb64(&b)).unwrap_or_default();
+      payload_len = payload.len();
+      if payload.len() < p.nonce_len() {
+        vio!("C10:malformed-token"; "payload shorter than the nonce: {}", token);
+      }
+      if !seen.insert(payload[..p.nonce_len()].to_vec()) {
+        vio!("C10:nonce-repeated:payload-shape:{}:{}", p.label(), c.layer.label(); "build #{} of {} under one key ({}, {} numbered claims, a text claim of {} characters: {} payload bytes on the wire{}) used the nonce {} again",
+          i + 1, c.builds, if c.one_builder { "one builder asked repeatedly" } else { "a fresh builder with the same claims per build" }, c.claims, c.pad, payload_len, if c.with_footer { ", footer and assertion set" } else { "" }, hex::encode(&payload[..p.nonce_len()]));
+      }
+    }
+    cl.tag(format!("{}:{}", p.label(), c.layer.label()));
+    cl.tag(format!("claims={}", match c.claims { 0 => "0", 1..=13 => "1-13", 14..=16 => "14-16", 17..=64 => "17-64", _ => ">64" }));
+    cl.tag(format!("payload-bytes mod 128 = {}", if payload_len % 128 == 0 { "0" } else { "other" }));
+    cl.nontrivial(true);
+    BUILDS.fetch_add(c.builds as u64, std::sync::atomic::Ordering::Relaxed);
+    DISTINCT.fetch_add(seen.len() as u64, std::sync::atomic::Ordering::Relaxed);
+    Verdict::Pass
+  }
+}
+
+pub fn shape_cases(pad_max: u32, claims_max: u16) -> Vec<ShapeCase> {
+  let mut v = vec![];
+  for proto in Proto::LOCAL {
+    for layer in [Layer::Generic, Layer::Prelude] {
+      // every payload length over more than two blocks of the largest block size in use (128)
+      for pad in 0..=pad_max {
+        v.push(ShapeCase { proto, layer, pad, claims: (pad % 3) as u16, builds: 3, one_builder: pad % 2 == 0, with_footer: pad % 5 == 0 });
+      }
+      // every number of claims
+      for claims in 0..=claims_max {
+        v.push(ShapeCase { proto, layer, pad: 5, claims, builds: 4, one_builder: true, with_footer: claims % 2 == 0 });
+        v.push(ShapeCase { proto, layer, pad: 5, claims, builds: 3, one_builder: false, with_footer: claims % 2 == 1 });
+      }
+      for claims in [100u16, 255, 256, 257, 300] {
+        v.push(ShapeCase { proto, layer, pad: 1, claims, builds: 3, one_builder: true, with_footer: false });
+      }
+    }
+  }
+  v
+}
+
 pub fn subs() -> Vec<Box<dyn DynSub>> {
-  vec![Box::new(Freshness), Box::new(AcrossFork), Box::new(Concurrent), Box::new(RngFailure)]
+  vec![Box::new(Shapes), Box::new(Freshness), Box::new(AcrossFork), Box::new(Concurrent), Box::new(RngFailure)]
 }
 
 pub fn run(ctx: &Ctx) -> EvidenceMeta {
@@ -497,6 +601,13 @@ pub fn run(ctx: &Ctx) -> EvidenceMeta {
       let strat = (proptest::collection::vec(0u8..4, 1..24), any::<bool>()).prop_map(move |(pattern, prelude)| NonceHistory { proto, layer: if prelude { Layer::Prelude } else { Layer::Generic }, mode: 4, n: n_mixed, pattern });
       ctx.prop(fr, strat, cases)
     }));
+  }
+  // short histories over every payload shape: every payload length across several blocks, every number of claims
+  let sh = &Shapes;
+  let (pad_max, claims_max) = (ctx.n(400, 1300), ctx.n(48, 130) as u16);
+  for chunk in shape_cases(pad_max, claims_max).chunks(400) {
+    let chunk = chunk.to_vec();
+    jobs.push(Box::new(move || ctx.enumerate(sh, chunk.into_iter(), true)));
   }
   // histories that continue in a forked process (each runs in a fresh single-threaded helper process)
   let af = &AcrossFork;
